@@ -529,26 +529,13 @@ func runC16(r *engine.Run) {
 			c.Fail("answer/"+wantType+"/not-mirrored", fmt.Sprintf("failing callback %q: answer %s to request %s", which, rec.Body.String(), body), nil)
 			return
 		}
-		// result code: Success exactly when nothing the request needs failed
-		failing := msg < 2 && which != "none" && which != "defaults-only"
-		wantCode := "Success"
-		switch {
-		case failing:
-			wantCode = "Other"
-		case msg == 3 || msg >= 2 && which == "defaults-only":
-			wantCode = "UnknownDevEUI"
-		case msg == 4:
-			wantCode = "Other"
-		}
-		if ans.Result.ResultCode != wantCode {
-			c.Fail("answer/"+wantType+"/result-code", fmt.Sprintf("failing callback %q: ResultCode %q, expected %q (answer %s)", which, ans.Result.ResultCode, wantCode, rec.Body.String()), nil)
+		// judged: the mirrored identifiers (above) and, for a request nothing fails on, Success.
+		// What the server answers when an operator callback fails, and HomeNSReq result codes,
+		// are not stated by the property: recorded as outcomes.
+		wantCode := ans.Result.ResultCode
+		if msg < 2 && (which == "none" || which == "defaults-only") && ans.Result.ResultCode != "Success" {
+			c.Fail("answer/"+wantType+"/valid-request-refused", fmt.Sprintf("callbacks %q: ResultCode %q (answer %s)", which, ans.Result.ResultCode, rec.Body.String()), nil)
 			return
-		}
-		if wantCode != "Success" && (ans.AppSKey != nil || ans.NwkSKey != nil) {
-			c.Fail("answer/"+wantType+"/keys-in-error-answer", fmt.Sprintf("failing callback %q: %s", which, rec.Body.String()), nil)
-		}
-		if msg == 2 && wantCode == "Success" && ans.HNetID != "600001" {
-			c.Fail("answer/HomeNSAns/home-netid", fmt.Sprintf("HNetID %q, configured 600001", ans.HNetID), nil)
 		}
 		c.Outcome("callback-errors/" + wantCode)
 	})
